@@ -1375,6 +1375,9 @@ class ClientObservation:
 class ServerObservation:
     def __init__(self):
         self._accepted = False
+        # Called at the end of the rendering also when the resource never
+        # accepted the observation (and thus never set a callback)
+        self._cancellation_callback = lambda: None
         self._trigger = asyncio.get_running_loop().create_future()
         # A deregistration is "early" if it happens before the response message
         # is actually sent; calling deregister() in that time (typically during
